@@ -19,7 +19,17 @@ Record stress := { s_rounds : Z; s_consumers : nat; s_outstanding : nat; s_parke
 Definition stress_ok (o : stress) : bool :=
   Nat.eqb (s_outstanding o) 0 || s_token o || Nat.ltb (s_parked o) (s_consumers o).
 
+(* compact traces: a run of n accepted ordinary adds (AddReq / Add / Push, or the last attempt of their ...Anyway
+   variant) of the items x0, x0+1, ..., each answered o (OAdd AOk; ONone for SyncQueue.Push), is written CAdds o x0 n
+   and stands for exactly those n labelled events *)
+Inductive cev := CE (e : event) | CAdds (o : out) (x0 : Z) (n : nat).
+Fixpoint adds_run (o : out) (x : Z) (n : nat) : list event :=
+  match n with O => [] | S m => ELab (LAdd x None) o :: adds_run o (x + 1)%Z m end.
+Definition expand (l : list cev) : list event :=
+  flat_map (fun c => match c with CE e => [e] | CAdds o x n => adds_run o x n end) l.
+
 Inductive case :=
+| CCondR (c : cfg) (ctr : list cev)
 | CCond (c : cfg) (tr : list event)
 | CPri (cap : Z) (n : nat) (tr : list pevent)
 | CStress (pri : bool) (o : stress).
@@ -29,6 +39,7 @@ Inductive case :=
    IsClosed / len(WaitCh())) is the one the model state implies *)
 Definition case_accept (c : case) : bool :=
   match c with
+  | CCondR g ctr => cond_accept g (expand ctr)
   | CCond g tr => cond_accept g tr
   | CPri cap n tr => pri_accept cap n tr
   | CStress _ o => stress_ok o
@@ -37,6 +48,7 @@ Definition case_accept (c : case) : bool :=
 (* the property's clauses on the observations alone *)
 Definition case_holds (c : case) : bool :=
   match c with
+  | CCondR g ctr => cond_holds g (expand ctr)
   | CCond g tr => cond_holds g tr
   | CPri cap n tr => pri_holds tr
   | CStress _ o => stress_ok o
@@ -44,5 +56,6 @@ Definition case_holds (c : case) : bool :=
 
 Theorem case_sound : forall c, case_accept c = true -> case_holds c = true.
 Proof.
-  intros [g tr|cap n tr|pri o] H; cbn in *; [now apply cond_accept_sound|now apply (pri_accept_sound cap n)|exact H].
+  intros [g ctr|g tr|cap n tr|pri o] H; cbn in *;
+    [now apply cond_accept_sound|now apply cond_accept_sound|now apply (pri_accept_sound cap n)|exact H].
 Qed.
